@@ -538,12 +538,12 @@ func printPattern(n *pnode, u bool) []uint16 {
 var (
 	poolASCII   = []rune{'a', 'b', 'c', 'A', 'B', 'x', 'k', 's', '0', '1', '_', ' ', '-', '\n', '\r', '\t', '.', '$'}
 	poolLatin1  = []rune{0xE9, 0xC9, 0xA0, 0xB5, 0xDF, 0xFF, 0x85, 0xE0}
-	poolBMP     = []rune{0x434, 0x414, 0x3042, 0x2028, 0x2029, 0xFEFF, 0x17F, 0x212A, 0x130, 0x131, 0xFFFF, 0x1E9E, 0x3C3, 0x3A3, 0x3C2, 0x180E, 0x2003, 0x1C5}
+	poolBMP     = []rune{0xFFFD, 0x434, 0x414, 0x3042, 0x2028, 0x2029, 0xFEFF, 0x17F, 0x212A, 0x130, 0x131, 0xFFFF, 0x1E9E, 0x3C3, 0x3A3, 0x3C2, 0x180E, 0x2003, 0x1C5}
 	poolAstral  = []rune{0x1F600, 0x1F601, 0x10400, 0x10428, 0x20000, 0x10FFFF, 0x10000, 0x1D7D8}
 	poolLone    = []rune{0xD83D, 0xDE00, 0xD801, 0xDC00, 0xDFFF, 0xD800}
 	poolASCIIi  = []rune{'a', 'b', 'c', 'A', 'B', 'x', 'X', '0', '1', '_', ' ', '-', '\n', 'z', 'Z'}
 	poolLatin1i = []rune{0xE9, 0xC9, 0xA0, 0xE0, 0xC0}
-	poolBMPi    = []rune{0x434, 0x414, 0x3042, 0x2028, 0xFEFF, 0x44F, 0x42F}
+	poolBMPi    = []rune{0xFFFD, 0x434, 0x414, 0x3042, 0x2028, 0xFEFF, 0x44F, 0x42F}
 	poolAstrali = []rune{0x1F600, 0x10400, 0x10428, 0x20000}
 )
 
@@ -610,9 +610,16 @@ func (g *caseGen) buildAlphabet() {
 		g.alpha = pickSome(r, pb, r.Range(1, 2), g.alpha)
 	case profile < 62:
 		g.alpha = pickSome(r, ps, r.Range(1, 2), g.alpha)
-	case profile < 75:
+	case profile < 70:
 		g.alpha = pickSome(r, poolLone, r.Range(1, 2), g.alpha)
 		g.alpha = pickSome(r, ps, 1, g.alpha)
+	case profile < 78:
+		// U+FFFD next to lone surrogates: a position map / transcoding step that replaces an unpaired surrogate by the
+		// replacement character is only visible to a pattern that tells the two apart (literal U+FFFD, a class with it)
+		g.alpha = append(g.alpha, 0xFFFD)
+		g.alpha = pickSome(r, poolLone, r.Range(1, 2), g.alpha)
+		g.alpha = pickSome(r, ps, r.Intn(2), g.alpha)
+		g.feat["alphabet-fffd+lone"] = true
 	default:
 		g.alpha = pickSome(r, pl, r.Intn(2), g.alpha)
 		g.alpha = pickSome(r, pb, r.Intn(2), g.alpha)
